@@ -553,6 +553,10 @@ def selftest(pids, quick=False, seed=0, verbose=True):
         if got.split() != [str(x) for x in want]:
             r['mismatches'] += 1
             mismatches.append((name, what, 'Python stream %s but Lean stream %s' % (' '.join(map(str, want)), got)))
+    rj = reject_tests(verbose=False)       # side conditions of the front-end: every violating snippet is refused
+    report['_reject_tests'] = {'snippets': len(REJECT), 'not_refused': [w for w, _ in rj]}
+    for what, why in rj:
+        mismatches.append(('reject-test', what, str(why)))
     report['_mismatches'] = [{'function': n, 'case': c, 'what': b} for n, c, b in mismatches[:5]]
     report['_wall_s'] = round(time.time() - t0, 2)
     report['_lean_s'] = round(t_lean, 2)
@@ -560,3 +564,81 @@ def selftest(pids, quick=False, seed=0, verbose=True):
         for name, r in report.items():
             print(name, r)
     return len(mismatches), report
+
+
+# --------------------------------------------------------------------------------------------------- reject tests
+# every snippet violates ONE side condition of the rules above: the front-end + base translator must refuse it
+
+_RJ_HEAD = "import re\n_line_ending_re = re.compile(r'(\\r\\n|\\n|\\r)')\n"
+_RJ_BODY = '''
+def iter_splitlines(text):
+    prev_end, len_text = 0, len(text)
+    for match in _line_ending_re.finditer(text):
+        start, end = match.start(1), match.end(1)
+        if prev_end <= start:
+            yield text[prev_end:start]
+        if end == len_text:
+            yield ''
+        prev_end = end
+    tail = text[prev_end:]
+    if tail:
+        yield tail
+'''
+_RJ_INDENT = '''
+def indent(text, margin, newline='\\n', key=bool):
+    indented_lines = [(margin + line if key(line) else line) for line in iter_splitlines(text)]
+    return newline.join(indented_lines)
+'''
+
+REJECT = [
+    ('regex bound twice', _RJ_HEAD + "_line_ending_re = re.compile('x')\n" + _RJ_BODY, 0),
+    ('regex not from re.compile', "import re\n_line_ending_re = make_re()\n" + _RJ_BODY, 0),
+    ('regex rebound in the function', _RJ_HEAD + _RJ_BODY.replace("    prev_end, len_text", "    _line_ending_re = None\n    prev_end, len_text"), 0),
+    ('match object escapes (yielded group)', _RJ_HEAD + _RJ_BODY.replace("yield ''", "yield match.group(1)"), 0),
+    ('match object stored', _RJ_HEAD + _RJ_BODY.replace("        prev_end = end\n", "        prev_end = end\n        last = match\n"), 0),
+    ('another group', _RJ_HEAD + _RJ_BODY.replace("match.end(1)", "match.end(2)"), 0),
+    ('group 1 of a pattern without that group', "import re\n_line_ending_re = re.compile(r'\\r\\n|\\n')\n" + _RJ_BODY, 0),
+    ('finditer over a derived text', _RJ_HEAD + _RJ_BODY.replace("finditer(text)", "finditer(text.lower())"), 0),
+    ('finditer with pos argument', _RJ_HEAD + _RJ_BODY.replace("finditer(text)", "finditer(text, 1)"), 0),
+    ('text rebound', _RJ_HEAD + _RJ_BODY.replace("    prev_end, len_text", "    text = text + text\n    prev_end, len_text"), 0),
+    ('two finditer loops', _RJ_HEAD + _RJ_BODY + "    for match in _line_ending_re.finditer(text):\n        yield text[match.start(1):]\n", 0),
+    ('reserved parameter name used', _RJ_HEAD + _RJ_BODY.replace("tail", "re_spans"), 0),
+    ('non-empty str literal', _RJ_HEAD + _RJ_BODY.replace("yield ''", "yield 'x'"), 0),
+    ('kind test against bytes', _RJ_HEAD + _RJ_BODY.replace("    prev_end, len_text", "    if isinstance(text, bytes):\n        return\n    prev_end, len_text"), 0),
+    ('match unpacked by the loop', _RJ_HEAD + _RJ_BODY.replace("for match in", "for match, other in"), 0),
+    ('str method on the text', _RJ_HEAD + _RJ_BODY.replace("if tail:", "if tail.strip():"), 0),
+    ('predicate rebound', _RJ_HEAD + _RJ_BODY + _RJ_INDENT.replace("    indented_lines", "    key = key or bool\n    indented_lines"), 1),
+    ('predicate passed on', _RJ_HEAD + _RJ_BODY + _RJ_INDENT.replace("key(line) else", "all(map(key, [line])) else"), 1),
+    ('predicate with two arguments', _RJ_HEAD + _RJ_BODY + _RJ_INDENT.replace("key(line)", "key(line, margin)"), 1),
+    ('callee on a derived text', _RJ_HEAD + _RJ_BODY + _RJ_INDENT.replace("iter_splitlines(text)", "iter_splitlines(text + margin)"), 1),
+    ('join on a non-text', _RJ_HEAD + _RJ_BODY + _RJ_INDENT.replace("newline.join", "key.join"), 1),
+]
+
+
+def reject_tests(verbose=True):
+    """-> list of snippets that were NOT refused (must be empty); the unmodified snippet must be accepted"""
+    import srctie_specs
+    bad = []
+
+    def tr(src):
+        specs = [copy.deepcopy({k: v for k, v in sp.items() if not k.startswith('_')}) for sp in srctie_specs.SPECS['C19']
+                 if sp['module'] == 'boltons.strutils']
+        for sp in specs:
+            sp['_c19_group'] = specs
+        _t, infos = py2lean.translate_source(src, specs, 'boltons.strutils', '<snippet>')
+        return infos
+    ok = tr(_RJ_HEAD + _RJ_BODY + _RJ_INDENT)
+    if any(i.get('error') for i in ok):
+        bad.append(('the unmodified snippet', [i.get('error') for i in ok]))
+    for what, src, idx in REJECT:
+        try:
+            compile(src, '<snippet>', 'exec')
+        except SyntaxError as e:
+            bad.append((what, 'snippet does not compile: %s' % e))
+            continue
+        infos = tr(src)
+        if not infos[idx].get('error'):
+            bad.append((what, 'accepted'))
+        elif verbose:
+            print('refused (%s): %s' % (what, infos[idx]['error'][:110]))
+    return bad
